@@ -168,6 +168,8 @@ MUTANTS = [
     ('bcorder', AMOD, '            AssignOp::Percent => bc.write_instr::<InstrPercent>(span, arg),', '            AssignOp::Percent => {}', 'write_bc'),
     ('bcargs', BCCALL, '            write_expr_opt(&self.args, bc, |args, bc| {\n                write_expr_opt(&self.kwargs, bc, |kwargs, bc| {', '            write_expr_opt(&self.kwargs, bc, |kwargs, bc| {\n                write_expr_opt(&self.args, bc, |args, bc| {', 'ArgsCompiledValue::write_bc'),
     ('bcargs', BCCALL, '                        args,\n                        kwargs,\n                    };', '                        args: kwargs,\n                        kwargs: args,\n                    };', 'ArgsCompiledValue::write_bc'),
+    ('fsdepth', LEX, 'state.paren_depth = state.paren_depth.saturating_sub(1);', 'state.paren_depth -= 1;', 'track_fstring_paren'),
+    ('fsdepth', LEX, 'state.bracket_depth = state.bracket_depth.saturating_sub(1);', 'state.bracket_depth -= 1;', 'track_fstring_bracket'),
     ('calls', INSTR, '        eval.with_call_stack(self.to_value(), Some(location), |eval| {\n            self.invoke(args, eval)\n        })', '        self.invoke(args, eval)', 'bc_invoke'),
     ('calls', 'starlark/src/values/layout/value.rs', '        eval.with_call_stack(self, location, |eval| {\n            self.get_ref_full().invoke(args, eval)\n        })', '        self.get_ref_full().invoke(args, eval)', 'invoke_with_loc'),
     ('strindex', STRT, 'let ind = CharIndex(i.unsigned_abs() as usize);', 'let ind = CharIndex((-i) as usize);', 'at'),
